@@ -31,6 +31,8 @@ def gen_case(rng, tier):
     kind = rng.random()
     start = [rng.choice([0.0, dec(rng), -dec(rng), dec(rng) * 10]) for _ in range(3)]
     inc = [dec(rng) * rng.choice([1, 1, 1, -1]) for _ in range(3)]
+    if rng.random() < 0.15:
+        inc[rng.randrange(3)] = 0.0          # a zero increment with a count > 1: the same point several times
     if kind < 0.4:
         n = [1, 1, 1]
         n[rng.randrange(3)] = rng.randint(1, big)
@@ -134,7 +136,9 @@ def run(ck):
     # fixed corpus first: the input that exposed the former np.arange grid
     corpus = [([0.0, 0.0, 1.0], [0.1, 0.1, 0.1], [3, 3, 3]),
               ([0.3, 0.0, 1.0], [0.1, -0.1, 0.7], [7, 1, 3]),
-              ([1.0, 1.0, 1.0], [0.1, 0.1, 0.1], [1, 1, 1])]
+              ([1.0, 1.0, 1.0], [0.1, 0.1, 0.1], [1, 1, 1]),
+              ([0.3, 0.0, 1.0], [0.1, 0.0, 0.0], [3, 2, 1]),
+              ([0.3, 0.2, 1.0], [0.0, 0.0, 0.5], [2, 2, 2])]
     cases = corpus + [gen_case(rng, ck.tier) for _ in range(N_near)]
     for (start, inc, n) in cases:
         m, coords, ne, nh = impl_near(start, inc, n)
@@ -152,7 +156,7 @@ def run(ck):
             disagreements.append(dict(kind='near', start=start, inc=inc, n=n,
                                       model_points=len(model), impl_points=len(impl), e=ne, h=nh))
     # a few end-to-end reports: number of FIELD POINT blocks printed
-    rep_cases = cases[:3] + cases[3:3 + (3 if ck.tier == 'quick' else 15)]
+    rep_cases = cases[:5] + cases[5:5 + (4 if ck.tier == 'quick' else 20)] + [c for c in cases[5:] if 0.0 in c[1]][:6]
     for (start, inc, n) in rep_cases:
         if n[0] * n[1] * n[2] > 60:
             continue
